@@ -63,7 +63,9 @@ SubnetTable ==
    one   |-> [min |-> <<S("m1", 1)>>,                        prefix |-> <<S("x1", 1)>>],
    two   |-> [min |-> <<S("m1", 1), S("m2", 3)>>,            prefix |-> <<S("x1", 2), S("x2", 1)>>],
    zero  |-> [min |-> <<S("m1", 1), S("m2", 0)>>,            prefix |-> <<S("x1", 0), S("x2", 1)>>],
-   three |-> [min |-> <<S("m1", 2), S("m2", 0), S("m3", 1)>>, prefix |-> <<S("x1", 1), S("x2", 1), S("x3", 2)>>]]
+   three |-> [min |-> <<S("m1", 2), S("m2", 0), S("m3", 1)>>, prefix |-> <<S("x1", 1), S("x2", 1), S("x3", 2)>>],
+   \* "ms" and "xs" are ONE address block configured for both transports, each entry with its own weight / port / prefix
+   shared |-> [min |-> <<S("ms", 1), S("m1", 1)>>,            prefix |-> <<S("xs", 1), S("x1", 1)>>]]
 
 SubsOf(c, t) == IF t \in {"min", "prefix"} THEN SubnetTable[c.subs][t] ELSE <<>>
 RECURSIVE CumW(_, _)
